@@ -8,7 +8,7 @@ from ..core import rule
 from ..dataflow import DefUse, origins
 from ..program import AnalysisError, dotted, src
 from ..core import walk_local  # inline-aware
-from .common import handler_catching, where, loops_over
+from .common import unwrap_await, handler_catching, where, loops_over
 
 MG = "xandikos.davcommon.MultiGetReporter"
 
@@ -61,11 +61,22 @@ def m1(ctx):
     if rvar is None or not mg_loops:
         raise AnalysisError("MultiGetReporter.report: `for href, resource in resources_by_hrefs(...)` not found")
     # every response is for a pair that resources_by_hrefs produced (it answers each distinct href once)
+    def status_of(y):
+        """(Status(...) call, node where it is evaluated) for a yield: the response may be built by a helper
+        (`yield await self._response(...)`, inlined) or bound to a local before it is yielded."""
+        v = unwrap_await(y.ast.value.value)
+        if isinstance(v, ast.Call):
+            return v, y
+        os_ = origins(du, y, v) if v is not None else []
+        if len(os_) == 1 and os_[0].kind == "expr" and not os_[0].path and isinstance(unwrap_await(os_[0].leaf), ast.Call) and os_[0].node is not None:
+            return unwrap_await(os_[0].leaf), os_[0].node
+        return v, y
+
     for y in ys:
-        st0 = y.ast.value.value
+        st0, y0 = status_of(y)
         if not (isinstance(st0, ast.Call) and st0.args):
             continue
-        ho = origins(du, y, st0.args[0])
+        ho = origins(du, y0, st0.args[0])
         paired = bool(ho) and all(o.kind == "elem" and o.node in mg_loops and tuple(o.path) == (0,) for o in ho)
         obs.append(ctx.ob(paired, fi.qualname, where(fi, y), "response href is one resources_by_hrefs() produced",
                           "href <- for href, resource in resources_by_hrefs(hrefs)",
@@ -84,7 +95,7 @@ def m1(ctx):
                 data_calls_ok.append(a_dp is not None and dotted(a_dp) == "self.data_property" and bool(a2)
                                      and all(o.kind == "elem" and o.node in mg_loops and tuple(o.path) == (1,) for o in a2))
     for y in ys:
-        st = y.ast.value.value
+        st, y0 = status_of(y)
         isnone = None
         for t, pol in cfg.required_conditions(y):
             r = _none_test(t, pol, rvar)
@@ -111,7 +122,7 @@ def m1(ctx):
             from_data = False
             if ps:
                 from ..dataflow import depends_on
-                deps = depends_on(du, y, ps[0])
+                deps = depends_on(du, y0, ps[0])
                 from_data = any(d_.startswith("<call:") and d_.rstrip(">").endswith("get_properties_with_data") for d_ in deps) \
                     and bool(data_calls_ok) and all(data_calls_ok)
             obs.append(ctx.ob(ok and from_data, fi.qualname, where(fi, y), "resolved href -> properties of that resource",
